@@ -120,7 +120,9 @@ static json_object *twin(json_object *o)
  * (moved to a separate buffer, shrunk back, emptied and refilled), objects that once held many more members (table grown,
  * tombstones left) or had members deleted and re-added, arrays that were longer / built by insert and put and then
  * trimmed or shrunk, numbers and booleans reached by set / increment */
-static json_object *twin_h(json_object *o)
+json_object *c09_twin_h(json_object *o);
+static json_object *twin_h(json_object *o) { return c09_twin_h(o); }
+json_object *c09_twin_h(json_object *o)
 {
 	if (!o)
 		return NULL;
